@@ -384,6 +384,18 @@ def regen_rootcpp(chk):
     return True
 
 
+def regen_entry(chk):
+    """regenerate Gen/EntryPy.lean from the package's __init__.py files (Props/EntryTie.lean: public names are the home definitions,
+    the besio wrappers forward their arguments unchanged)"""
+    from translate import gen
+    g = gen.gen_entrypy()
+    if not g["ok"]:
+        chk.obligation_broken("translator", "translate the package glue (__init__.py files: public names -> definitions, besio wrappers) into Gen/EntryPy.lean", g["error"])
+        return False
+    chk.coverage["entry_translation"] = g["info"]
+    return True
+
+
 def regen_rootpy(chk):
     """regenerate Gen/RootPy.lean from the working tree's root_io.py (Props/RootTie.lean proves it equal to the models)"""
     from translate import gen
